@@ -15,10 +15,11 @@ Variable inp : bstr.
 Notation ilen := (Z.of_nat (length inp)).
 Variable base : Z.
 Hypothesis base_nonneg : 0 <= base.
-Notation inv := (inv inp).
-Notation wf := (wf inp).
-Notation step_post := (step_post inp).
-Notation loop_post := (loop_post inp).
+Notation inv := (inv inp base).
+Notation wf := (wfi inp base).
+Notation step_post := (step_post inp base).
+Notation loop_post := (loop_post inp base).
+Notation lim := (Z.to_N (base + ilen)).
 
 (* the rune next() reads at byte offset q *)
 Definition rune_at (q : Z) : Z :=
@@ -60,17 +61,18 @@ Definition header_post (lns : Z) (l : lx) (r : lstate * lx + Z * lx) : Prop :=
   match r with
   | inl p => loop_post 2 l p
   | inr (lns', l1) =>
-      l_start l1 = l_start l /\ l_dd l1 = l_dd l /\ l_last l1 = l_last l /\
+      l_out l1 = l_out l /\ l_start l1 = l_start l /\ l_dd l1 = l_dd l /\ l_last l1 = l_last l /\
       lns <= lns' /\ lns' + 1 <= l_pos l1 /\ l_pos l + 1 <= l_pos l1 <= ilen /\
       spaces_between lns' (l_pos l1 - 1) /\
       l_ticks l <= l_ticks l1 /\ l_ticks l1 - l_ticks l <= l_pos l1 - l_pos l
   end.
 
 Lemma header_type_loop_ok fuel : forall lns l, 0 <= l_start l <= lns -> lns <= l_pos l <= ilen ->
+  items_ok lim false (l_out l) ->
   spaces_between lns (l_pos l) -> (Z.to_nat (ilen - l_pos l) < fuel)%nat ->
   okp (header_type_loop inp ilen base fuel lns l) (header_post lns l).
 Proof.
-  induction fuel as [|f IH]; intros lns l H1 H2 Hs Hf; [lia|]. cbn [header_type_loop].
+  induction fuel as [|f IH]; intros lns l H1 H2 Hit Hs Hf; [lia|]. cbn [header_type_loop].
   eapply okp_bind; [apply next_rune_at; lia|]. intros [ch l1] [Hn Hr]. cbn [fst] in Hr. unfold next_post in Hn. cbn beta iota.
   dest_hyps.
   destruct ((ch =? 61) || (ch =? 125)) eqn:E1.
@@ -82,18 +84,19 @@ Proof.
       eapply okp_weaken; [apply IH|].
       * destruct (gen_isSpace ch); cbn [negb]; fin.
       * destruct (gen_isSpace ch); cbn [negb]; fin.
+      * congruence.
       * destruct (gen_isSpace ch) eqn:E3; cbn [negb].
         -- unfold spaces_between in *; intros q Hq. destruct (Z.eq_dec q (l_pos l)) as [->|Hne]; [rewrite <- Hr; exact E3|].
            apply Hs. apply isSpace_nonneg in E3. fin.
         -- unfold spaces_between in *; intros q Hq. lia.
       * fin.
       * intros [p|[lns' l2]]; cbn [header_post].
-        -- apply (loop_post_mono _ _ 2); lsimpl; fin.
+        -- apply (loop_post_mono _ _ _ 2); lsimpl; fin.
         -- intros Hp. dest_hyps. repeat split; try congruence; try (destruct (gen_isSpace ch); cbn [negb] in *; fin).
 Qed.
 
 (* from the type scan to the end of lexHeaderParam *)
-Lemma header_tail_ok l8 : 0 <= l_start l8 -> l_start l8 = l_pos l8 -> l_pos l8 <= ilen ->
+Lemma header_tail_ok l8 : 0 <= l_start l8 -> l_start l8 = l_pos l8 -> l_pos l8 <= ilen -> items_ok lim false (l_out l8) ->
   okp (r <- header_type_loop inp ilen base (loop_fuel ilen l8) (l_pos l8) l8 ;;
        match r with
        | inl e => Ok e
@@ -103,8 +106,8 @@ Lemma header_tail_ok l8 : 0 <= l_start l8 -> l_start l8 = l_pos l8 -> l_pos l8 <
            Ok (LInsideTag, l11)
        end) (loop_post 30 l8).
 Proof.
-  intros H1 H2 H3.
-  eapply okp_bind; [apply header_type_loop_ok; [lia|lia|unfold spaces_between; intros; lia|apply loop_fuel_ok; lia]|].
+  intros H1 H2 H3 Hit.
+  eapply okp_bind; [apply header_type_loop_ok; [lia|lia|exact Hit|unfold spaces_between; intros; lia|apply loop_fuel_ok; lia]|].
   intros [p|[lns l9']] Hh; cbn [header_post] in Hh; cbn beta iota.
   - cbn [okp]. revert Hh. apply loop_post_mono; lia.
   - dest_hyps. exec1. dest_hyps. unfold skip_space. rewrite bind_assoc.
@@ -116,13 +119,13 @@ Qed.
 Lemma lex_header_param_ok l : inv LHeaderParam l ->
   okp (lex_header_param uni_letter uni_digit inp ilen base l) (step_post LHeaderParam l).
 Proof.
-  intros (Hw & _). unfold LexerStates.wf in Hw. unfold lex_header_param.
+  intros (Hw & Hit & _). unfold LexerStates.wf in Hw. cbn [is_done] in Hit. unfold lex_header_param.
   exec1. cbn beta in Hv. exec1; [exec|]. apply Bool.negb_false_iff in E. apply is_prefix_length in E.
   unfold header_kw_len. set (kw := Z.of_nat (length header_param_kw)) in *.
   assert (Hkw : 0 <= kw <= ilen - l_pos l) by (unfold kw; lia).
   exec.
   all: dest_hyps; eapply okp_weaken; [apply header_tail_ok; side|];
-    intros p Hp; apply (loop_post_step inp LHeaderParam); [discriminate|]; revert Hp; apply loop_post_mono; lsimpl; cbn [rank]; side.
+    intros p Hp; apply (loop_post_step inp base LHeaderParam); [discriminate|]; revert Hp; apply loop_post_mono; lsimpl; cbn [rank]; side.
 Qed.
 
 End Header.
